@@ -88,7 +88,7 @@ Definition w_tree : list (list N * node) := [(pa, File cA); (pd, Dir); (pdb, Fil
 Definition w_ops : list op :=
   [ODo (CS 1 [CC pa cC None]); ODo (CS 2 [MV pd pe true]); ODo (CS 3 [CC peb cD None]);
    ODo (CS 4 [CS 41 [CR [6%N] true; CS 42 [CR [6%N; 7%N] false; CC [6%N; 7%N] cA None]]])].
-Definition w_hist : hist := hsteps false repaired 6 [] w_ops (st w_tree 100).
+Definition w_hist : hist := hsteps true repaired 6 [] w_ops (st w_tree 100).
 
 Lemma w_hist_consistent : Consistent 6 w_hist.
 Proof. apply consistentb_sound. vm_compute. reflexivity. Qed.
@@ -99,31 +99,30 @@ Proof. apply class_ok_sound. vm_compute. reflexivity. Qed.
 (* selective undo of the folder move (position 1): takes the later edit of e/b with it, leaves the edit
    of a and the nested set (a non-LIFO selection) *)
 Lemma selective_undo_example :
-  Consistent 6 w_hist /\ cok (resources_list (h_undo w_hist)) /\ 1 < length (h_undo w_hist)
-  /\ find_deps false (h_undo w_hist) 1 = [1; 2]
-  /\ length (part false (marks false (h_undo w_hist) 1) (h_undo w_hist)) = 2.
+  Consistent 6 w_hist /\ 1 < length (h_undo w_hist)
+  /\ find_deps true (h_undo w_hist) 1 = [1; 2]
+  /\ length (part false (marks true (h_undo w_hist) 1) (h_undo w_hist)) = 2.
 Proof.
-  split; [exact w_hist_consistent|]. split; [exact w_hist_cok|].
+  split; [exact w_hist_consistent|].
   split; [vm_compute; lia|]. split; vm_compute; reflexivity.
 Qed.
 
 (* after that selective undo: selective redo of the edit of e/b (position 0 of the redo list [3; 2])
    must first redo the folder move that lies after it in the redo list *)
-Definition w_hist2 : hist := sres_state (hstep false repaired 6 [] (OUndo (Some 1) false) w_hist quiet).
+Definition w_hist2 : hist := sres_state (hstep true repaired 6 [] (OUndo (Some 1) false) w_hist quiet).
 
 Lemma selective_redo_example :
-  Consistent 6 w_hist2 /\ cok (resources_list (h_redo w_hist2)) /\ 0 < length (h_redo w_hist2)
-  /\ find_deps false (h_redo w_hist2) 0 = [0; 1].
+  Consistent 6 w_hist2 /\ 0 < length (h_redo w_hist2)
+  /\ find_deps true (h_redo w_hist2) 0 = [0; 1].
 Proof.
   split; [apply consistentb_sound; vm_compute; reflexivity|].
-  split; [apply class_ok_sound; vm_compute; reflexivity|].
   split; [vm_compute; lia|]. vm_compute; reflexivity.
 Qed.
 
 Lemma undo_after_do_example :
   exists s1 k1 deps,
     wf_fs (h_fs w_hist) /\ 0 < h_limit w_hist
-    /\ hstep false repaired 6 [] (ODo (CS 5 [MV pa [6%N; 1%N] false; CC [6%N; 1%N] cB None])) w_hist quiet = SOk s1 k1 deps
+    /\ hstep true repaired 6 [] (ODo (CS 5 [MV pa [6%N; 1%N] false; CC [6%N; 1%N] cB None])) w_hist quiet = SOk s1 k1 deps
     /\ irrev k1 = false /\ h_undo s1 <> h_undo w_hist.
 Proof.
   eexists. eexists. eexists.
@@ -133,7 +132,7 @@ Proof.
 Qed.
 
 Lemma limit_example :
-  within (st w_tree 2) /\ length (h_undo (hsteps false repaired 6 [] w_ops (st w_tree 2))) = 2.
+  within (st w_tree 2) /\ length (h_undo (hsteps true repaired 6 [] w_ops (st w_tree 2))) = 2.
 Proof. split; [vm_compute; lia|vm_compute; reflexivity]. Qed.
 
 Lemma swap_example :
@@ -153,8 +152,8 @@ Qed.
 Lemma remove_not_undoable_refuted :
   exists f ign c s s1 k1 d1 s2 k2,
     wf_fs (h_fs s) /\ undoable c = false
-    /\ hstep false repaired f ign (ODo c) s quiet = SOk s1 k1 d1 /\ irrev k1 = true
-    /\ hstep false repaired f ign (OUndo None false) s1 quiet = SErr s2 k2 (E NotImpl)
+    /\ hstep true repaired f ign (ODo c) s quiet = SOk s1 k1 d1 /\ irrev k1 = true
+    /\ hstep true repaired f ign (OUndo None false) s1 quiet = SErr s2 k2 (E NotImpl)
     /\ h_fs s !! pa = Some (File cA) /\ h_fs s2 !! pa = None /\ length (h_undo s2) = 1.
 Proof.
   exists 4, [], (CS 1 [CC pb cC None; RM pa false]), (st [(pa, File cA); (pb, File cB)] 100).
@@ -165,10 +164,12 @@ Proof.
   split; [vm_compute; reflexivity|]. split; [vm_compute; reflexivity|reflexivity].
 Qed.
 
-(* the dependency scan compares resources by class: a Folder created at the path a File was moved away
+(* Documentation of a FIXED defect (/repo ed5101e): the as-found dependency test, model variant bp = false.
+   That scan compares resources by class: a Folder created at the path a File was moved away
    from is not recognised as dependent; the selective undo of the move then moves the file INTO the new
    folder.  The state before is Consistent, the classes are not coherent, the state after is not
-   Consistent: the hypothesis [cok] of the selective undo theorem cannot be dropped. *)
+   Consistent: for bp = false the hypothesis [cok] of the selective undo theorem cannot be dropped.
+   The code under test is expected to be bp = true, for which no such hypothesis exists. *)
 Definition w_alias : hist :=
   hsteps false repaired 6 [] [ODo (CS 1 [MV pa pda false]); ODo (CS 2 [CR pa true])] (st [(pa, File cA); (pd, Dir)] 100).
 
@@ -200,8 +201,8 @@ Qed.
 Lemma move_overwrite_refuted :
   exists f ign c s s1 k1 d1 s2 k2 d2,
     wf_fs (h_fs s) /\ undoable c = true
-    /\ hstep false repaired f ign (ODo c) s quiet = SOk s1 k1 d1 /\ irrev k1 = true
-    /\ hstep false repaired f ign (OUndo None false) s1 quiet = SOk s2 k2 d2
+    /\ hstep true repaired f ign (ODo c) s quiet = SOk s1 k1 d1 /\ irrev k1 = true
+    /\ hstep true repaired f ign (OUndo None false) s1 quiet = SOk s2 k2 d2
     /\ h_fs s !! pb = Some (File cB) /\ h_fs s2 !! pb = None.
 Proof.
   exists 4, [], (CS 1 [MV pa pb false]), (st [(pa, File cA); (pb, File cB)] 100).
@@ -218,15 +219,15 @@ Qed.
    redo() then WRITES d/a although a is back in place: both files exist, the step was not exactly
    reversible.  Only the undo half of Consistent survives a drop. *)
 Definition w_drop : hist :=
-  hsteps false repaired 6 [] [ODo (CS 1 [MV pa pda false]); ODo (CS 2 [CC pda cC None]); OUndo None false]
+  hsteps true repaired 6 [] [ODo (CS 1 [MV pa pda false]); ODo (CS 2 [CC pda cC None]); OUndo None false]
          (st [(pa, File cA); (pd, Dir)] 100).
 
 Lemma drop_stale_redo_refuted :
   exists s1 k1 d1 s2 k2 d2,
     Consistent 6 w_drop
-    /\ hstep false repaired 6 [] (OUndo None true) w_drop quiet = SOk s1 k1 d1
+    /\ hstep true repaired 6 [] (OUndo None true) w_drop quiet = SOk s1 k1 d1
     /\ consistentUb 6 s1 = true /\ consistentRb 6 s1 = false
-    /\ hstep false repaired 6 [] (ORedo None) s1 quiet = SOk s2 k2 d2
+    /\ hstep true repaired 6 [] (ORedo None) s1 quiet = SOk s2 k2 d2
     /\ irrev k2 = true
     /\ h_fs s2 !! pa = Some (File cA) /\ h_fs s2 !! pda = Some (File cC).
 Proof.
